@@ -1,7 +1,7 @@
 //! suiron_harness: runs the real suiron implementation on generated inputs and prints
 //! CASE / IMPL / ORACLE / STAT lines (see out.rs).  Usage:
 //!   suiron_harness <suite> --props C06,C07 --seed N --n N [--exhaustive] [--shard i/n] [--anon] [--func]
-mod prng; mod codec; mod gen; mod refuni; mod refarith; mod out; mod capture; mod suite_unify; mod suite_engine;
+mod prng; mod codec; mod gen; mod refuni; mod refarith; mod out; mod capture; mod suite_unify; mod suite_engine; mod suite_builtins;
 
 use out::Out;
 
@@ -58,6 +58,22 @@ fn main() {
                 }
                 else if has(&args, "--exhaustive") { suite_engine::run_exhaustive(&mut out, &cfg, shard, nshards); }
                 else { suite_engine::run_random(&mut out, &cfg, &w, seed, n); }
+            },
+            "builtins" => {
+                let cfg = suite_engine::Cfg{props};
+                let kind = arg_val(&args, "--kind").unwrap_or("cmp".into());
+                if let Some(body) = arg_val(&args, "--replay-case") {
+                    match suite_engine::dec_case(&body) { Some(c) => suite_engine::emit(&mut out, &cfg, &c), None => { eprintln!("cannot decode case"); std::process::exit(2); } }
+                } else {
+                    let ex = has(&args, "--exhaustive");
+                    match kind.as_str() {
+                        "cmp" => if ex { suite_builtins::run_cmp_exhaustive(&mut out, &cfg, shard, nshards) } else { suite_builtins::run_cmp_random(&mut out, &cfg, seed, n) },
+                        "arith" => if ex { suite_builtins::run_arith_exhaustive(&mut out, &cfg, shard, nshards) } else { suite_builtins::run_arith_random(&mut out, &cfg, seed, n) },
+                        "append" => suite_builtins::run_append_random(&mut out, &cfg, seed, n),
+                        "c17" => suite_builtins::run_c17_random(&mut out, &cfg, seed, n),
+                        _ => { eprintln!("unknown kind"); std::process::exit(2); },
+                    }
+                }
             },
             _ => { eprintln!("unknown suite {}", suite); std::process::exit(2); },
         }
